@@ -36,6 +36,42 @@ theorem finishChanges_length (actors : List Bytes) (bs : List Builder) :
                 omega
     · cases h
 
+/-- the steps of an accepted reconstruction -/
+theorem rebuild_steps {actors heads : List Bytes} {changes : List ChangeMeta} {rows : List OpRow}
+    {fail : Option (DErr ⊕ PanicSite)} {built : List DChange}
+    (h : rebuild actors heads changes rows fail = .ok built) :
+    ∃ st1 st2, placeAll (emitRows rows ⟨none, []⟩).1 (mkBuilders changes, 0) = .ok st1 ∧
+      placeAll (flushOps (emitRows rows ⟨none, []⟩).2) st1 = .ok st2 ∧ st2.2 = 0 ∧
+      finishChanges actors st2.1 ((List.range changes.length).zip changes)
+        (List.replicate actors.length 0) (List.replicate actors.length 0) [] = .ok built ∧
+      sortHashes (headsOf (built.map (·.c))) = heads ∧ markOrderOk rows [] = true ∧ fail = none := by
+  unfold rebuild at h
+  split at h
+  · cases h
+  · cases h
+  · rename_i st1 h1
+    split at h
+    · cases h
+    · cases h
+    · split at h
+      · cases h
+      · cases h
+      · rename_i st2 h2
+        split at h
+        · cases h
+        · rename_i hu
+          split at h
+          · cases h
+          · cases h
+          · rename_i hf
+            split at h
+            · cases h
+            · split at h
+              · cases h
+              · cases h
+                rename_i hm hh
+                exact ⟨st1, st2, h1, h2, by omega, hf, by simpa using hh, by simpa using hm, rfl⟩
+
 /-- **what `Document::reconstruct` has verified when it accepts**: the stored heads are the heads of
     the rebuilt changes (sorted), every change row was rebuilt, every mark end follows its begin -/
 theorem rebuild_ok {actors heads : List Bytes} {changes : List ChangeMeta} {rows : List OpRow}
@@ -43,29 +79,10 @@ theorem rebuild_ok {actors heads : List Bytes} {changes : List ChangeMeta} {rows
     (h : rebuild actors heads changes rows fail = .ok built) :
     sortHashes (headsOf (built.map (·.c))) = heads ∧ built.length = changes.length ∧
       markOrderOk rows [] = true ∧ fail = none := by
-  unfold rebuild at h
-  split at h
-  · cases h
-  · cases h
-  · split at h
-    · cases h
-    · cases h
-    · split at h
-      · cases h
-      · cases h
-      · split at h
-        · cases h
-        · cases h
-        · rename_i hf
-          split at h
-          · cases h
-          · split at h
-            · cases h
-            · cases h
-              rename_i hm hh
-              have hl := finishChanges_length _ _ _ _ _ _ _ hf
-              simp only [List.length_nil, List.length_zip, List.length_range, Nat.min_self, Nat.zero_add] at hl
-              refine ⟨by simpa using hh, hl, by simpa using hm, rfl⟩
+  obtain ⟨_, st2, _, _, _, hf, hh, hm, hn⟩ := rebuild_steps h
+  have hl := finishChanges_length _ _ _ _ _ _ _ hf
+  simp only [List.length_nil, List.length_zip, List.length_range, Nat.min_self, Nat.zero_add] at hl
+  exact ⟨hh, hl, hm, hn⟩
 
 /-- an accepted `decodeDoc` read every row -/
 theorem decodeDoc_parts {limit : Nat} {body : Bytes} {img : DocImage} (h : decodeDoc limit body = .ok img) :
